@@ -610,12 +610,12 @@ void _GD_LinterpData(DIRFILE *restrict D, void *data, gd_type_t type,
 
 #define LINCOM2(t) for (i = 0; i < n_read; i++) \
                             ((t *)data1)[i] = (t)(((t *)data1)[i] * m[0] + \
-                              (data2[i * spf[1] / spf[0]] * m[1] + b[0] + b[1]))
+                              (data2[(spf[GD_MAX_LINCOM + 1] + i * spf[1]) / spf[0]] * m[1] + b[0] + b[1]))
 
 #define LINCOM3(t) for (i = 0; i < n_read; i++) \
                             ((t *)data1)[i] = (t)(((t *)data1)[i] * m[0] + \
-                              (data2[i * spf[1] / spf[0]] * m[1] + \
-                               data3[i * spf[2] / spf[0]] * m[2] + \
+                              (data2[(spf[GD_MAX_LINCOM + 1] + i * spf[1]) / spf[0]] * m[1] + \
+                               data3[(spf[GD_MAX_LINCOM + 2] + i * spf[2]) / spf[0]] * m[2] + \
                                b[0] + b[1] + b[2]))
 
 #ifdef GD_NO_C99_API
@@ -631,7 +631,7 @@ void _GD_LinterpData(DIRFILE *restrict D, void *data, gd_type_t type,
   do { \
     for (i = 0; i < n_read; i++) { \
       ((t *)data1)[2 * i] = (t)(((t *)data1)[i] * m[0] + \
-        (data2[i * spf[1] / spf[0]] * m[1] + b[0] + b[1])); \
+        (data2[(spf[GD_MAX_LINCOM + 1] + i * spf[1]) / spf[0]] * m[1] + b[0] + b[1])); \
       ((t *)data1)[2 * i + 1] = 0; \
     } \
   } while (0)
@@ -641,8 +641,8 @@ void _GD_LinterpData(DIRFILE *restrict D, void *data, gd_type_t type,
   do { \
     for (i = 0; i < n_read; i++) { \
       ((t *)data1)[2 * i] = (t)(((t *)data1)[i] * m[0] + \
-        (data2[i * spf[1] / spf[0]] * m[1] + \
-         data3[i * spf[2] / spf[0]] * m[2] + \
+        (data2[(spf[GD_MAX_LINCOM + 1] + i * spf[1]) / spf[0]] * m[1] + \
+         data3[(spf[GD_MAX_LINCOM + 2] + i * spf[2]) / spf[0]] * m[2] + \
          b[0] + b[1] + b[2])); \
       ((t *)data1)[2 * i + 1] = 0; \
     } \
@@ -667,7 +667,9 @@ void _GD_LinterpData(DIRFILE *restrict D, void *data, gd_type_t type,
     default: _GD_InternalError(D); \
   }
 
-/* Compute a lincom, all at once */
+/* Compute a lincom, all at once.  When n > 1, spf[i] is the rate of input i and
+ * spf[GD_MAX_LINCOM + i] the remainder (first_samp * spf[i]) mod spf[0] aligning
+ * it with the first input (see _GD_InputStart in getdata.c) */
 void _GD_LincomData(DIRFILE *restrict D, int n, void *restrict data1,
     gd_type_t return_type, const double *restrict data2,
     const double *restrict data3, const double *restrict m,
@@ -714,7 +716,7 @@ void _GD_LincomData(DIRFILE *restrict D, int n, void *restrict data1,
 #define LINCOM2(t) \
   do { \
     for (i = 0; i < n_read; i++) { \
-      const int i2 = 2 * (i * spf[1] / spf[0]); \
+      const int i2 = 2 * ((spf[GD_MAX_LINCOM + 1] + i * spf[1]) / spf[0]); \
       ((t *)data1)[i] = (t)(((t *)data1)[i] * m[0][0] + \
         (data2[i2] * m[1][0] - data2[i2 + 1] * m[1][1] + b[0][0] + b[1][0])); \
     } \
@@ -724,8 +726,8 @@ void _GD_LincomData(DIRFILE *restrict D, int n, void *restrict data1,
 #define LINCOM3(t) \
   do { \
     for (i = 0; i < n_read; i++) { \
-      const int i2 = 2 * (i * spf[1] / spf[0]); \
-      const int i3 = 2 * (i * spf[2] / spf[0]); \
+      const int i2 = 2 * ((spf[GD_MAX_LINCOM + 1] + i * spf[1]) / spf[0]); \
+      const int i3 = 2 * ((spf[GD_MAX_LINCOM + 2] + i * spf[2]) / spf[0]); \
       ((t *)data1)[i] = (t)(((t *)data1)[i] * m[0][0] + \
         (data2[i2] * m[1][0] - data2[i2 + 1] * m[1][1] + \
          data3[i3] * m[2][0] - data3[i3 + 1] * m[2][1] + \
@@ -746,7 +748,7 @@ void _GD_LincomData(DIRFILE *restrict D, int n, void *restrict data1,
 #define LINCOMC2(t) \
   do { \
     for (i = 0; i < n_read; i++) { \
-      const int i2 = 2 * (i * spf[1] / spf[0]); \
+      const int i2 = 2 * ((spf[GD_MAX_LINCOM + 1] + i * spf[1]) / spf[0]); \
       const t x = ((t *)data1)[2 * i]; \
       const t y = ((t *)data1)[2 * i + 1]; \
       ((t *)data1)[2 * i] = (t)(x * m[0][0] - y * m[0][1] + \
@@ -760,8 +762,8 @@ void _GD_LincomData(DIRFILE *restrict D, int n, void *restrict data1,
 #define LINCOMC3(t) \
   do { \
     for (i = 0; i < n_read; i++) { \
-      const int i2 = 2 * (i * spf[1] / spf[0]); \
-      const int i3 = 2 * (i * spf[2] / spf[0]); \
+      const int i2 = 2 * ((spf[GD_MAX_LINCOM + 1] + i * spf[1]) / spf[0]); \
+      const int i3 = 2 * ((spf[GD_MAX_LINCOM + 2] + i * spf[2]) / spf[0]); \
       const t x = ((t *)data1)[2 * i]; \
       const t y = ((t *)data1)[2 * i + 1]; \
       ((t *)data1)[2 * i] = (t)(x * m[0][0] - y * m[0][1] + \
